@@ -404,6 +404,14 @@ def c09(tier, hook=None):
                         mods.append((idx, src))
                         descs.append(d)
                         reqs.append({"k": "expand", "id": idx, "entry": "attr", "attr": req["attr"], "item": req["item"]})
+    # the user's operand types named like well-known (unsized) std types - user types all the same - in every seventh module
+    if not hook:
+        ren = [("Path", "CStr"), ("OsStr", "Path"), ("str_", "Ordering"), ("CStr", "OsStr")]
+        for k in range(3, len(mods), 7):
+            a, b = ren[(k // 7) % len(ren)]
+            sub = lambda t: re.sub(r"\bRT\b", b, re.sub(r"\bLT\b", a, t))
+            mods[k] = (mods[k][0], sub(mods[k][1]))
+            reqs[k] = dict(reqs[k], item=sub(reqs[k]["item"]))
     resps = dx.expand(reqs)
     mods = T(mods)
     res, failed = run_modules(mods, "c09")
@@ -609,10 +617,21 @@ def c10(tier, hook=None):
         events.append({"ev": "debug", "name": "X", "named": False, "fields": [{"name": "", "dbg": "transparent", "leaf": "", "alt": [""]}] * n,
                        "plain": "", "alt": [""], "twin_equal": True, "diff": "", "rejected": rejected, "check_render": True})
         emeta.append({"desc": s, "entry": "attr", "idx": None})
+    # last field = a wrapper with several type arguments, the last of which may be unsized
+    if not hook:
+        wmods = [(900000 + k, rf.debug_wrapped_tail_module(900000 + k, entry)) for k, entry in enumerate(("attr", "derive"))]
+        wres, wfailed = run_modules(wmods, "c10w")
+        for wi, wsrc in wmods:
+            events.append({"ev": "same_as_twin", "equal": wres[wi][0]["equal"]} if wi in wres else {"ev": "rustc_failed"})
+            emeta.append({"desc": {"frag": "wrapped_unsized_tail", "kind": "struct"}, "entry": "attr", "idx": None, "diags": wfailed.get(wi), "wsrc": wsrc})
     n, bad, jst = dx.tlc_judge("Trace_Run", "Trace_Run.cfg", events, "c10", chunk=max(200, -(-len(events) // 8)))
     ck.add_judge(n, jst)
     for i in bad:
         e, m = events[i], emeta[i]
+        if "wsrc" in m:
+            ck.violation({"kind": "wrapped_unsized_tail", "ev": e["ev"], "codes": ",".join(sorted(set(d.get("code") or "?" for d in (m.get("diags") or []))))},
+                         {"what": "Debug of a struct whose last field is a wrapper with a possibly unsized last type argument", "event": e, "source": m["wsrc"], "diags": m.get("diags")})
+            continue
         if e["ev"] == "rustc_failed":
             sig = {"kind": "rustc_failed", "codes": ",".join(sorted(set(d.get("code") or "?" for d in (m.get("diags") or []))))}
         elif e["ev"] == "same_as_twin":
@@ -725,13 +744,15 @@ def c11(tier, hook=None):
     # default values that contain an `expr` fragment of a macro_rules! macro keep the fragment's grouping
     frag0 = len(cases) + 10
     fmods = [(frag0 + k, rf.default_fragment_module(frag0 + k, entry)) for k, entry in enumerate(("attr", "derive"))] if not hook else []
+    # ... and default expressions that call functions named like earlier fields keep meaning the user's functions
+    fmods += [(frag0 + 2 + k, rf.default_shadow_module(frag0 + 2 + k, entry)) for k, entry in enumerate(("attr", "derive"))] if not hook else []
     mods = T(mods + fmods)
     res, failed = run_modules(mods, "c11")
     events, emeta = [], []
     for fi, _src in fmods:
         if fi in res:
             j = res[fi][0]
-            events.append({"ev": "same_as_twin", "equal": j["equal"], "got": j["got"], "want": j["want"]})
+            events.append({"ev": "same_as_twin", "equal": j["equal"], "got": j.get("got"), "want": j.get("want")})
         else:
             events.append({"ev": "rustc_failed"})
         emeta.append({"P": {"kind": "macro_fragment", "tv": "none", "variants": []}, "entry": "attr", "idx": fi, "diags": failed.get(fi), "bounds": None, "fragment": _src})
@@ -756,7 +777,7 @@ def c11(tier, hook=None):
                "codes": ",".join(sorted(set(d.get("code") or "?" for d in (m.get("diags") or []))))}
         if "fragment" in m:
             ck.violation({"kind": "default_value_with_macro_fragment", "equal": e.get("equal"), "got": e.get("got")},
-                         {"what": "a default value containing an `expr` fragment of a macro_rules! macro lost the fragment's grouping", "event": e, "source": m["fragment"], "diags": m.get("diags")})
+                         {"what": "a default value written by the user (an `expr` fragment of a macro_rules! macro inside it / a call of a function named like an earlier field) does not mean what the user wrote", "event": e, "source": m["fragment"], "diags": m.get("diags")})
             continue
         ck.violation(sig, {"what": "default() differs from the documented value / rejection rule", "event": e, "source": rf.default_module(m["idx"], P, m["entry"], bounds=m.get("bounds")),
                            "diags": m.get("diags")})
